@@ -223,6 +223,10 @@ def _audit_cases(quick, rng, sets):
             pre = [['pop', ahead]] if rng.random() < 0.5 else [['pop', ahead // 3], ['pop', ahead // 3], ['pop', ahead - 2 * (ahead // 3)]]
             t = rng.choice([0, 1, 2, 5, 9])
             c = base(pol, st, gs=rng.randint(1, n + 1), nperms=2 * (600 // n) + 40, fill='append')
+            # ... at a LOW rate as well: the same look-ahead is then minutes long (a pause more than a minute before
+            # the newest trial), so a log pruned by age rather than by the pause time shows
+            c['fs'] = rng.choice([1.0, 2.0] if quick else [1.0, 2.0, c['fs']])
+            c['t0'] = rng.choice([0, 40, -6])
             yield dict(c, ops=pre + [['pause', t], ['pop', 3], ['resume', t + rng.choice([0, 2])], ['pop', 4 * total + 50], ['pop', 5]])
     # random histories over the full grammar, stimuli of every container / trial-count / delay kind
     for _ in range(120 if quick else 3000):
